@@ -18,6 +18,8 @@ fn forms() -> Vec<(&'static str, [f64; 6])> {
         ("alternating", [1.0, -1.0, 1.0, -1.0, 1.0, -1.0]),
         ("mixed", [1.0, 0.5, -0.25, 0.125, 1.0, -1.0]),
         ("integral of 2+3L+4L^2+5L^3+6L^4", [2.0, -2.0, 0.5, -1.1666666666666665, 0.9583333333333334, -121.0]),
+        ("mixed * 2^-60", [8.673617379884035e-19, 4.336808689942018e-19, -2.168404344971009e-19, 1.0842021724855044e-19, 8.673617379884035e-19, -8.673617379884035e-19]),
+        ("mixed * 2^40", [1099511627776.0, 549755813888.0, -274877906944.0, 137438953472.0, 1099511627776.0, -1099511627776.0]),
     ]
 }
 
@@ -63,8 +65,22 @@ fn one_v(v: f64, scale_big: bool, cx: &mut Cx) -> Verdict {
         cx.evals(1);
         let (s, t) = exact_value(&p, v, x, &r);
         let detail = |g: serde_json::Value, err: f64| json!({"form": name, "k,c1..c4,u": fjs(&p), "v": fj(v), "x=-ln v": fj(x), "exact_value~": s.to_f64(), "sum_of_term_magnitudes~": t.to_f64(), "abs_error~": err, "got": g});
-        let known = x + p[5].abs().max(1.0).ln() > LN_MAX;
-        let mk = |f: Fail| if known { f.with_finding("K1") } else { f };
+        let known = x + p[5].abs().max(1.0).ln() > LN_MAX - 1e-6; // |u|*e^x at or beyond the overflow threshold (margin for the rounding of ln)
+        // K2: an unscaled intermediate term c_j*x^j (or u*x^5*R(x)) lies in the subnormal-precision range although
+        // the stated term v*c_j*x^j does not: the final scaling by a huge v cannot restore the bits lost to gradual underflow
+        let xd = dy(x).abs();
+        let k2 = v > 1.0
+            && (1..=5).any(|j| {
+                if p[j] == 0.0 {
+                    return false;
+                }
+                let mut t = dy(p[j]).abs().mul(&xd.powi(j as u32));
+                if j == 5 {
+                    t = t.mul(&r.abs());
+                }
+                !t.is_zero() && t.ilog2() < -969
+            });
+        let mk = |f: Fail| if known { f.with_finding("K1") } else if k2 { f.with_finding("K2") } else { f };
         let g = match got {
             Err(pn) => return Err(Fail::new(format!("IntOfLogPoly4::evaluate panicked: {pn}"), detail(json!(pn), 0.0))),
             Ok(g) => g,
@@ -132,7 +148,7 @@ pub fn check(thorough: bool, seed: u64) -> Check {
             one_v(v, false, cx)
         }),
         classes: vec![("near v=1", true), ("near switch x=-1.71", true), ("near switch x=1.72", true), ("series side of a switch", true), ("closed-form side of a switch", true)],
-        bounds: json!({"arguments": format!("every float within +-{radius} ulps of v=1, of v=e^1.71 and of v=e^-1.72 (both sides of both switch points)"), "forms": "10 parameter sets (six unit forms, all ones, alternating, mixed, a real integral)"}),
+        bounds: json!({"arguments": format!("every float within +-{radius} ulps of v=1, of v=e^1.71 and of v=e^-1.72 (both sides of both switch points)"), "forms": "12 parameter sets (six unit forms, all ones, alternating, mixed, mixed*2^-60, mixed*2^40, a real integral)"}),
     };
     let n_grid: usize = if thorough { 2_000_000 } else { 50_000 };
     let gchunk = 500usize;
@@ -197,7 +213,7 @@ pub fn check(thorough: bool, seed: u64) -> Check {
     };
     Check {
         id: "C10",
-        rule: "each leaf is one argument v evaluated by the real IntOfLogPoly4::evaluate for all ten parameter sets and compared with the exact value (x = -ln v as f64, R(x) from a >200-bit integer series); every float of the stated neighbourhoods, every grid point and every binade is enumerated; all leaves are non-trivial (distinct v)".into(),
+        rule: "each leaf is one argument v evaluated by the real IntOfLogPoly4::evaluate for all twelve parameter sets and compared with the exact value (x = -ln v as f64, R(x) from a >200-bit integer series); every float of the stated neighbourhoods, every grid point and every binade is enumerated; all leaves are non-trivial (distinct v)".into(),
         assumptions: vec!["f64::ln within 1 ulp: the oracle uses the same f64 x = -ln v as the subject (its effect on the stated formula is <= 1.2e-13 of the term magnitudes)".into(),
                           "one subnormal ulp (2^-1074) of absolute slack for gradual underflow".into()],
         phases: vec![near, grid, bin, sub],
